@@ -76,12 +76,28 @@ def run(tier, replay):
     if replay:
         return replay_case(ctx, hbin, replay)
 
+    # ---- all TLC work that does not depend on the harness runs concurrently, at most 8 TLC workers in total ----
+    # quick: the open deviation and a representative subset of the plausible bugs; thorough: all of them
+    rb = RESP_BUGS if thorough else [x for x in RESP_BUGS if x[0] in ("dev_CrlfAfterBody", "bug_DecimalChunkSize", "bug_SplitAllSpaces")]
+    cb = CLIENT_BUGS if thorough else ["bug_Follow303", "bug_StopAfterFirst", "reach_MaxChain"]
+    jobs = [("mc:A", lambda: tlc("MC_HttpResp.tla", "MC_HttpResp_%sA.cfg" % T, 2 if thorough else 1, coverage=True)),
+            ("mc:B", lambda: tlc("MC_HttpResp.tla", "MC_HttpResp_%sB.cfg" % T, 2 if thorough else 1, coverage=True)),
+            ("mc:C", lambda: tlc("MC_HttpResp.tla", "MC_HttpResp_%sC.cfg" % T, 1, coverage=True)),
+            ("mc:seg", lambda: tlc("MC_HttpResp.tla", "MC_HttpResp_seg_%s.cfg" % T, 1, coverage=True)),
+            ("mc:client", lambda: tlc("MC_Client.tla", "MC_Client_%s.cfg" % T, 1, coverage=True)),
+            ("gen:A", lambda: tlc("MC_HttpResp.tla", "Gen_HttpResp_%sA.cfg" % T)),
+            ("gen:B", lambda: tlc("MC_HttpResp.tla", "Gen_HttpResp_%sB.cfg" % T)),
+            ("gen:C", lambda: tlc("MC_HttpResp.tla", "Gen_HttpResp_%sC.cfg" % T)),
+            ("gen:cookie", lambda: tlc("MC_HttpResp.tla", "Gen_HttpResp_cookie.cfg", heap="1g")),
+            ("gen:client", lambda: tlc("MC_Client.tla", "Gen_Client_%s.cfg" % T, heap="1g"))]
+    jobs += [("sens:resp:" + n, (lambda n=n: tlc("MC_HttpResp.tla", "MC_HttpResp_%s.cfg" % n, 1, heap="1g"))) for n, _ in rb]
+    jobs += [("sens:client:" + n, (lambda n=n: tlc("MC_Client.tla", "MC_Client_%s.cfg" % n, 1, heap="1g"))) for n in cb]
+    res = par(jobs, 6 if thorough else 8)
+    mc = {k[3:]: v for k, v in res.items() if k.startswith("mc:")}
+    gen = {k[4:]: v for k, v in res.items() if k.startswith("gen:")}
+    sr = {k[5:]: v for k, v in res.items() if k.startswith("sens:")}
+
     # ---- 1. model checking ---------------------------------------------------------------------------------
-    mc = par([("A", lambda: tlc("MC_HttpResp.tla", "MC_HttpResp_%sA.cfg" % T, 2, coverage=True)),
-              ("B", lambda: tlc("MC_HttpResp.tla", "MC_HttpResp_%sB.cfg" % T, 2, coverage=True)),
-              ("C", lambda: tlc("MC_HttpResp.tla", "MC_HttpResp_%sC.cfg" % T, 2, coverage=True)),
-              ("seg", lambda: tlc("MC_HttpResp.tla", "MC_HttpResp_seg_%s.cfg" % T, 1, coverage=True)),
-              ("client", lambda: tlc("MC_Client.tla", "MC_Client_%s.cfg" % T, 1, coverage=True))], 5)
     notes = {"A": "every status code x header lists x bodies (one per length) x every composition, Dev={}",
              "B": "few status codes x header lists 0..%d x every spelling, Dev={}" % (3 if thorough else 2),
              "C": "every body over {a, LF} up to %d bytes x every composition into chunks x every spelling, Dev={}" % (6 if thorough else 4),
@@ -102,23 +118,15 @@ def run(tier, replay):
     ctx.require_cover("MC_HttpResp seg", mc["seg"], RESP_ACTIONS + ["Net_Deliver"])
     ctx.require_cover("MC_Client", mc["client"], CLIENT_ACTIONS)
 
-    sens = [("resp:" + n, (lambda n=n: tlc("MC_HttpResp.tla", "MC_HttpResp_%s.cfg" % n, 1, heap="1g"))) for n, _ in RESP_BUGS]
-    sens += [("client:" + n, (lambda n=n: tlc("MC_Client.tla", "MC_Client_%s.cfg" % n, 1, heap="1g"))) for n in CLIENT_BUGS]
-    sr = par(sens, 8)
     for name, r in sorted(sr.items()):
         ctx.add_tlc("sensitivity %s must violate an invariant" % name, r)
         if r.violation != "invariant":
             raise vlib.ToolError("model lost sensitivity: %s no longer violates any invariant" % name)
-    for n, inv in RESP_BUGS:
+    for n, inv in rb:
         if inv and sr["resp:" + n].violated_name != inv:
             raise vlib.ToolError("sensitivity %s violated %s, expected %s" % (n, sr["resp:" + n].violated_name, inv))
 
     # ---- 2. vectors from TLC replayed on the real code ------------------------------------------------------
-    gen = par([("A", lambda: tlc("MC_HttpResp.tla", "Gen_HttpResp_%sA.cfg" % T)),
-               ("B", lambda: tlc("MC_HttpResp.tla", "Gen_HttpResp_%sB.cfg" % T)),
-               ("C", lambda: tlc("MC_HttpResp.tla", "Gen_HttpResp_%sC.cfg" % T)),
-               ("cookie", lambda: tlc("MC_HttpResp.tla", "Gen_HttpResp_cookie.cfg", heap="1g")),
-               ("client", lambda: tlc("MC_Client.tla", "Gen_Client_%s.cfg" % T, heap="1g"))], 5)
     vectors = []
     for name in ("A", "B", "C", "cookie"):
         g = gen[name]
